@@ -139,11 +139,11 @@ let handle () =
      | Printed sts -> String.concat " | " (List.map (fun st -> "[" ^ String.concat " " (List.map ocaml_string st) ^ "]") sts)
      | PRaises -> "raises")
   | "optparse" ->
-    let iv s = (try Some (z_of_int (int_of_string s)) with _ -> None) in
+    (* optparse imin|imax <empty 0/1> <iv | -> : iv = what Python's int(value) returns, - = ValueError (computed by the harness) *)
     let sb = function None -> "raises" | Some true -> "accept" | Some false -> "reject" in
     (match next () with
-     | "imin" -> let v = (match !toks with [] -> "" | _ -> next ()) in sb (parse_imin_gen (iv v))
-     | "imax" -> let v = (match !toks with [] -> "" | _ -> next ()) in sb (parse_imax_gen (v = "") (iv v))
+     | "imin" -> let _ = next () in let iv = (match next () with "-" -> None | s -> Some (z_of_int (int_of_string s))) in sb (parse_imin_gen iv)
+     | "imax" -> let e = next () = "1" in let iv = (match next () with "-" -> None | s -> Some (z_of_int (int_of_string s))) in sb (parse_imax_gen e iv)
      | "istop" -> String.concat " " (List.map ocaml_string istop_values_gen)
      | s -> failwith ("optparse " ^ s))
   | "parse" ->
